@@ -71,8 +71,9 @@ impl<C: Cv> CurveDyn for Dyn<C> {
                     let ret = if e["role"] == "P" && e["op"] == "commit" { e["ret"][1].clone() } else { e["ret"].clone() };
                     serde_json::json!([e["role"], e["ph"], e["op"], ret, e["err"], e["mlen"]])
                 }).collect();
+            let gates = r.events.iter().filter(|e| e["ev"] == "gates").last().map(|e| e["vals"].clone());
             out.push(serde_json::json!({"id": p.id, "curve": C::NAME, "pres": r.pres, "vres": r.vres, "decode": r.decode,
-                                        "bad": bad, "proof": r.proof_bytes.as_ref().map(|b| cv::hex(b)), "calls": calls}));
+                                        "bad": bad, "proof": r.proof_bytes.as_ref().map(|b| cv::hex(b)), "calls": calls, "gates": gates}));
         }
         out
     }
